@@ -48,7 +48,7 @@ Erase(a) ==
     [] a.op \in {"lfmap", "lpmap"} ->
          IF a.p.pn = "never" THEN Erase(a.in)
          ELSE [op |-> "fmap", p |-> a.p, cls |-> "FilterException", in |-> Erase(a.in)]
-    [] a.op = "rshuffle" -> Erase(a.in)      \* (C20 only: order not modelled)
+    [] a.op \in {"rshuffle", "lshuffle"} -> Erase(a.in)      \* (the order is not modelled)
     [] a.op = "lfilter" -> [op |-> "filter", p |-> a.p, lazy |-> a.lazy, in |-> Erase(a.in)]
     [] a.op = "concat" -> [op |-> "concat", in |-> Erase(a.in), in2 |-> a.in2]
     [] OTHER -> [x \in DOMAIN a |-> IF x = "in" THEN Erase(a.in) ELSE a[x]]
@@ -74,7 +74,7 @@ RECURSIVE Indexable(_)
 Indexable(a) ==
   CASE a.op \in {"list", "dict"} -> TRUE
     [] a.op = "lfilter" -> ~a.lazy /\ Indexable(a.in)
-    [] a.op \in {"unbatch", "prefetch", "catch", "rshuffle"} -> FALSE
+    [] a.op \in {"unbatch", "prefetch", "catch", "rshuffle", "lshuffle"} -> FALSE
     [] OTHER -> Indexable(a.in)
 
 -----------------------------------------------------------------------------
@@ -104,6 +104,19 @@ MayRest(ps, n) == [pos |-> ps, may |-> Range(MaxOf(ps) + 1, n), exh |-> FALSE, m
 Down0(a, rq) ==
   LET nin == Len(Vals(a.in)) IN
   CASE a.op \in {"lmap", "lfmap", "items", "copy", "rshuffle"} -> rq
+    [] a.op = "lshuffle" ->
+         \* LocalShuffleDataset (shuffle with a buffer): every input is appended to
+         \* the buffer; once the buffer holds buffer_size examples each further
+         \* input releases one - the k-th output has consumed k + bs - 1 inputs,
+         \* read IN SOURCE ORDER; if the input is shorter the buffer is flushed at
+         \* its end
+         LET k  == Len(rq.pos)
+             k2 == k + Len(rq.may)
+             Need(j) == IF j = 0 THEN 0 ELSE Min2(nin, j + a.bs - 1)
+         IN IF rq.exh \/ (k >= 1 /\ k + a.bs - 1 > nin) THEN ReqAll(nin)
+            ELSE IF rq.mex \/ (k2 >= 1 /\ k2 + a.bs - 1 > nin)
+                 THEN MayRest(Range(1, Need(k)), nin)
+            ELSE Req(Range(1, Need(k)), Range(Need(k) + 1, Need(k2)))
     [] a.op = "lpmap" ->
          \* iterating: lazy_parallel_map pulls at most buffer_size + 1 inputs
          \* beyond what it has delivered; by index (inherited __getitem__): serial
@@ -332,7 +345,11 @@ Ops(s) ==
     [op |-> "prefetch", s |-> s, w |-> 1, bs |-> 1, cfe |-> "none"],
     [op |-> "prefetch", s |-> s, w |-> 1, bs |-> 2, cfe |-> "none"],
     [op |-> "prefetch", s |-> s, w |-> 2, bs |-> 2, cfe |-> "none"]>>
+  \o <<[op |-> "lshuffle", s |-> s, seed |-> 7, bs |-> 2], [op |-> "lshuffle", s |-> s, seed |-> 3, bs |-> 3]>>
   \o (IF WithShuffle THEN <<[op |-> "rshuffle", s |-> s, seed |-> 7]>> ELSE <<>>)
+
+RECURSIVE HasLocalShuffle(_)
+HasLocalShuffle(a) == IF a.op \in {"list", "dict"} THEN FALSE ELSE a.op = "lshuffle" \/ HasLocalShuffle(a.in)
 
 RECURSIVE HasPool(_)
 HasPool(a) == IF a.op \in {"list", "dict"} THEN FALSE ELSE IsPool(a) \/ HasPool(a.in)
@@ -344,6 +361,8 @@ Apply(desc, a) == [x \in (DOMAIN desc) \cup {"in"} |-> IF x = "in" THEN a ELSE d
 Applicable(d, a) ==
   \* a failing stage is only ever the top of a program or directly below catch()
   IF Failing(a) THEN d.op = "catch" /\ Indexable(a)
+  \* the order a buffered shuffle delivers is not modelled: nothing on top of it
+  ELSE IF HasLocalShuffle(a) THEN FALSE
   ELSE IF d.op \in {"lfmap", "lpmap"} /\ Vals(a) # <<>> /\ \E j \in 1..Len(Vals(a)) : Vals(a)[j].t # "i"
   THEN FALSE          \* the failing predicates are defined on plain examples
   ELSE
